@@ -28,7 +28,7 @@ TYPES = ["ta", "tb", "tc", "td", "te"]
 
 
 def plan(tier, seed):
-    n = 1600 if tier == "quick" else 40000
+    n = 4000 if tier == "quick" else 40000
     return [["top", i] for i in range(n)]
 
 
